@@ -2,6 +2,7 @@ package resource
 
 import (
 	"context"
+	"io"
 	"log"
 	"sort"
 	"sync"
@@ -19,8 +20,11 @@ import (
 type Collection struct {
 	*config
 
-	mu   sync.RWMutex // protects byId and rng from concurrent access
+	mu   sync.RWMutex // protects byId from concurrent access
 	byId map[string]*item
+	// rngMu protects rng: ids are generated while holding only the read lock of mu, so concurrent writers can
+	// generate ids at the same time, and a rand.Rand is not safe for concurrent use.
+	rngMu sync.Mutex
 	// pubMu is held from just before a write is committed until its change has been sent on the bus,
 	// so that changes are published in the order they were committed.
 	// Lock order: pubMu before mu.
@@ -393,7 +397,7 @@ func (c *Collection) itemSlice(readConfig *ReadRequest) []idItem {
 }
 
 func (c *Collection) genID() (string, error) {
-	id, err := GenerateUniqueId(c.rng, func(candidate string) bool {
+	id, err := GenerateUniqueId(lockedReader{mu: &c.rngMu, r: c.rng}, func(candidate string) bool {
 		if c.idInterceptor != nil {
 			candidate = c.idInterceptor(candidate)
 		}
@@ -405,6 +409,18 @@ func (c *Collection) genID() (string, error) {
 		id = c.idInterceptor(id)
 	}
 	return id, err
+}
+
+// lockedReader serialises reads from r using mu.
+type lockedReader struct {
+	mu *sync.Mutex
+	r  io.Reader
+}
+
+func (l lockedReader) Read(p []byte) (int, error) {
+	l.mu.Lock()
+	defer l.mu.Unlock()
+	return l.r.Read(p)
 }
 
 type item struct {
